@@ -203,7 +203,9 @@ func init() {
 		for _, c := range a[2].L {
 			chain = append(chain, augOf(c))
 		}
-		signer, err := signature.NewSigner(ver, chain, nil, mustURL(string(a[3].B)), time.Unix(a[4].I64(), 0), time.Duration(a[5].I64())*time.Second)
+		signer, err := signature.NewSigner(ver, chain, nil, mustURL(string(a[3].B)), time.Unix(a[4].I64(), []int64{600000000, 0, 999999999, 500000000}[a[4].I64()&3]), time.Duration(a[5].I64())*time.Second)
+		// (round 16) the signing date carries a sub-second part of 600/0/999.999999/500 ms chosen by its seconds value:
+		// the signature's date and expires are whole seconds rounded DOWN, which is what the model computes
 		if err != nil {
 			return ErrV()
 		}
